@@ -71,7 +71,8 @@ Section CacheProofs.
     fst (c_step rd s o) = fst (u_step rd (version s) o) /\
     cache_ok (snd (c_step rd s o)) /\ version (snd (c_step rd s o)) = snd (u_step rd (version s) o).
   Proof.
-    intros Hok. destruct o as [k|ks|ts]; cbn [c_step u_step].
+    intros Hok. destruct o as [k|ks|ts|k|ks got]; cbn [c_step u_step];
+      try (cbn [fst snd]; split; [reflexivity|split; [exact Hok|reflexivity]]).
     - unfold c_get. destruct (cache_lookup s k) as [v|] eqn:E; cbn [fst snd].
       + split; [f_equal; apply (proj1 Hok); exact E|]. split; [exact Hok|reflexivity].
       + destruct (cache_update_ok s [(k, val_of (norm (rd (version s) k)))] Hok) as [H1 H2].
